@@ -247,7 +247,7 @@ Qed.
 
 Lemma step_coh c s o : coh c s -> coh c (fst (step fixed c s o)).
 Proof.
-  intros [Hc Hm]. destruct o as [i k|i k dt|cas|i cas vals|k]; simpl.
+  intros [Hc Hm]. destruct o as [i k|i k dt|cas|i cas vals|k|i k|i k dt|i p v|i p v]; simpl.
   - destruct (nth_error (sixs s) i) as [[d|phs rows]|]; simpl.
     + destruct (chem_lookup_spec (tb c) (scc s) k Hc) as [C1 _].
       destruct (chem_lookup (tb c) (scc s) k) as [cc' r]. simpl in *. split; auto.
@@ -272,6 +272,27 @@ Proof.
     destruct (overlap fixed (tb c) (scc s) cas) as [cc' [[|x|ts]|e]]; simpl in *; try (split; auto; fail).
     destruct (existsb is_grp ts); simpl; split; auto.
   - split; auto.
+  - destruct (nth_error (sixs s) i) as [[d|phs rows]|]; simpl.
+    + destruct (chem_lookup_spec (tb c) (scc s) k Hc) as [C1 _].
+      destruct (chem_lookup (tb c) (scc s) k) as [cc' r]. simpl in *. split; auto.
+    + destruct (mat_lookup_spec (tb c) phs (scc s) (mc_get (smc s) phs) k Hc (Hm phs)) as (M1 & M2 & _).
+      destruct (mat_lookup fixed (tb c) phs (scc s) (mc_get (smc s) phs) k) as [[cc' mc'] r]. simpl in *.
+      apply coh_mc_set; auto.
+    + split; auto.
+  - destruct (nth_error (sixs s) i) as [[d|phs rows]|]; simpl.
+    + destruct (chem_lookup_spec (tb c) (scc s) k Hc) as [C1 _].
+      destruct (chem_lookup (tb c) (scc s) k) as [cc' [[ci kd]|e]]; simpl in *.
+      * destruct (set_sparse (wcomps c) (to_mass (mws c) d) ci kd dt k). simpl. split; auto.
+      * split; auto.
+    + destruct (mat_lookup_spec (tb c) phs (scc s) (mc_get (smc s) phs) k Hc (Hm phs)) as (M1 & M2 & _).
+      destruct (mat_lookup fixed (tb c) phs (scc s) (mc_get (smc s) phs) k) as [[cc' mc'] [v|e]]; simpl in *.
+      * destruct (mat_set (wcomps c) (map (to_mass (mws c)) rows) v dt k). simpl. apply coh_mc_set; auto.
+      * apply coh_mc_set; auto.
+    + split; auto.
+  - destruct (nth_error (sixs s) i) as [[d|phs rows]|]; simpl; try (split; auto; fail).
+    destruct (add_phase_row (nchem c) phs rows p) as [[phs' rows'] r]. simpl. split; auto.
+  - destruct (nth_error (sixs s) i) as [[d|phs rows]|]; simpl; try (split; auto; fail).
+    destruct (add_phase_row (nchem c) phs (map (fun x => vzero (length x)) rows) p) as [[phs' rows'] r]. simpl. split; auto.
 Qed.
 
 Lemma run_coh c ops : forall s, coh c s -> coh c (fst (run fixed c s ops)).
@@ -1003,4 +1024,34 @@ Proof.
   rewrite S in H. inversion H; subst. repeat split; auto.
   exists (map (tsum d') ts). split; [reflexivity|].
   clear -R. induction R; simpl; constructor; auto.
+Qed.
+
+(* ------------------------------------------------------------------ the mass view and phase expansion *)
+Lemma mass_read_after_history c ixs hist i k :
+  snd (step fixed c (after c ixs hist) (OGetMass i k)) =
+  match nth_error (sixs (after c ixs hist)) i with
+  | Some (IC d) => obs_of_read (read_chem (tb c) (to_mass (mws c) d) k)
+  | Some (IM phs rows) => obs_of_read (read_mat fixed (tb c) (nchem c) phs (map (to_mass (mws c)) rows) k)
+  | None => BErr EOther
+  end.
+Proof.
+  destruct (after_coh c ixs hist) as [Hc Hm]. set (s := after c ixs hist) in *. simpl.
+  destruct (nth_error (sixs s) i) as [[d|phs rows]|]; simpl; auto.
+  - destruct (chem_lookup_spec (tb c) (scc s) k Hc) as [_ C2].
+    destruct (chem_lookup (tb c) (scc s) k) as [cc' r]. simpl in *. subst r.
+    unfold read_chem. destruct (classify_chem (tb c) k) as [[ci kd]|e]; simpl; auto.
+  - destruct (mat_lookup_spec (tb c) phs (scc s) (mc_get (smc s) phs) k Hc (Hm phs)) as (_ & _ & M3).
+    destruct (mat_lookup fixed (tb c) phs (scc s) (mc_get (smc s) phs) k) as [[cc' mc'] r]. simpl in *. subst r.
+    unfold read_mat. reflexivity.
+Qed.
+
+(* an indexer that gains a phase leaves every cache exactly as it was; it merely continues with the cache
+   registered for its new phase set *)
+Lemma expand_keeps_caches vr c s i p v :
+  scc (fst (step vr c s (OMixPhase i p v))) = scc s /\ smc (fst (step vr c s (OMixPhase i p v))) = smc s /\
+  scc (fst (step vr c s (OCopyPhase i p v))) = scc s /\ smc (fst (step vr c s (OCopyPhase i p v))) = smc s.
+Proof.
+  simpl. destruct (nth_error (sixs s) i) as [[d|phs rows]|]; simpl; auto.
+  destruct (add_phase_row (nchem c) phs rows p) as [[phs1 rows1] r1].
+  destruct (add_phase_row (nchem c) phs (map (fun x => vzero (length x)) rows) p) as [[phs2 rows2] r2]. simpl. auto.
 Qed.
